@@ -9,15 +9,16 @@ choice) + an independent oracle = the property text evaluated on the implementat
 import os, re, sys, glob, time
 import vlib
 
-WRAP = ["gettimeofday", "timerfd_settime", "read"]
+WRAP = ["gettimeofday", "timerfd_settime", "read", "pthread_mutex_lock"]
 CLK0 = 1700000000000000
 FLOOR = 100
-C06_CLAUSES = ("early", "once", "spacing", "order", "lost", "armed", "sets", "crash", "format")
-C07_CLAUSES = ("cancel", "cancel-queued-add", "lost", "once", "crash", "sets", "format")   # lost/once: a cancel must not kill or duplicate ANOTHER timer
+C06_CLAUSES = ("early", "once", "spacing", "order", "lost", "armed", "sets", "id", "crash", "format")
+C07_CLAUSES = ("cancel", "cancel-queued-add", "lost", "once", "id", "crash", "sets", "format")   # lost/once: a cancel must not kill or duplicate ANOTHER timer
 
 RUN = re.compile(r"^run\((-?\d+),(-?\d+),(-?\d+),(-?\d+)\)$")
 ARM = re.compile(r"^arm\((-?\d+),(-?\d+)\)$")
 ADD = re.compile(r"^add\((-?\d+)\)$")
+BADID = re.compile(r"^bad(id|new)\((-?\d+)(?:,(-?\d+))?\)$")
 LINE = re.compile(r"^(ok|rejected) (.*) \| n=(\d+) a=(\d+) c=(\d+) p=(\d+) arm=(-|-?\d+)$")
 
 
@@ -48,6 +49,22 @@ def parse_script(tokens):
     return groups
 
 
+def parse_qbody(tokens):
+    """tokens of a Q op: ['Q', '{', ..., '}'] -> list of cbop token lists"""
+    assert tokens[0] == "Q" and tokens[1] == "{" and tokens[-1] == "}", tokens
+    ops, cur = [], []
+    for t in tokens[2:-1]:
+        if t == "|":
+            if cur:
+                ops.append(cur)
+            cur = []
+        else:
+            cur.append(t)
+    if cur:
+        ops.append(cur)
+    return ops
+
+
 def fmt_script(groups):
     return "F [ " + " ; ".join(" , ".join(" ".join(o) for o in g) for g in groups) + " ]"
 
@@ -66,15 +83,16 @@ def oracle(case, lines):
     """The property text on the implementation's trace.  Returns a list of (clause, op index, message).
     Independent of the Coq model: plain bookkeeping of which timers are registered / due / cancelled."""
     bad = []
-    tags, byseq, queue = {}, {}, []
+    tags, byseq, queue, inflight = {}, {}, [], {}
     clk = int(case.header.split()[0])
     arm_at = None
     ops = [o for o in case.ops if not o.startswith("addr ")]
     body = [l for l in lines[1:] if not l.startswith("@")]
     stats = {"runs": 0, "batch_max": 0, "stale_cancels": 0, "inbatch_cancels": 0, "nested_adds": 0}
 
-    def cancel(tag, fidx, due_now):
-        t = tags.get(tag)
+    def cancel(tag, fidx, due_now, t="bytag"):
+        if t == "bytag":
+            t = tags.get(tag)
         if t is None:
             stats["stale_cancels"] += 1
             return
@@ -91,6 +109,9 @@ def oracle(case, lines):
     def do_add(w, evs, idx, foreign):
         """w = [A|FA, tag, when, iv]; pops the add event. returns False on format error"""
         tag, when, iv = int(w[1]), int(w[2]), int(w[3])
+        while evs and ARM.match(evs[0]):
+            m = ARM.match(evs.pop(0))
+            note_arm(m)
         if when <= 0:
             if evs and evs[0] == "rejected":
                 evs.pop(0)
@@ -106,15 +127,66 @@ def oracle(case, lines):
             bad.append(("cancel", idx, "sequence number %d handed out twice" % seq))
         t = Tm(tag, when, iv if iv > 0 else 0, foreign)
         t.seq = seq
-        t.state = "queued" if foreign else "pending"
-        tags[tag] = t
+        t.state = "inflight" if foreign == "new" else ("queued" if foreign else "pending")
+        if foreign == "new":
+            inflight[tag] = t          # the id is not public before the add returns (FQ)
+        else:
+            tags[tag] = t
         byseq[seq] = t
-        if foreign:
-            queue.append(("add", tag))
+        if foreign and foreign != "new":
+            queue.append(("add", t))
 
     def note_arm(m):
         nonlocal arm_at
         arm_at = int(m.group(1))
+
+    def do_enq(tag, evs, idx):
+        """FQ: the hand-off of an in-flight foreign add"""
+        while evs and BADID.match(evs[0]):
+            bad.append(("id", idx, "the id returned by the foreign add of tag %d does not carry its timer's sequence number: %s" % (tag, evs.pop(0))))
+        t = inflight.pop(tag, None)
+        if t is None:
+            return
+        t.state = "queued"
+        tags[tag] = t
+        queue.append(("add", t))
+
+    def do_queue(w):
+        """Q { ... }: a user functor; cancels name the id the tag has now"""
+        ops = []
+        for cw in parse_qbody(w):
+            if cw[0] in ("C", "FC"):
+                ops.append((cw, tags.get(int(cw[1]))))
+            else:
+                ops.append((cw, None))
+        queue.append(("user", ops))
+
+    def run_cbops(ops, evs, idx, fidx, due):
+        """ops of a callback / a top-level op list; returns nothing, mutates the bookkeeping"""
+        nonlocal clk
+        for cw in ops:
+            ck = cw[0]
+            if ck == "T":
+                if int(cw[1]) >= 0:
+                    clk += int(cw[1])
+                elif evs and evs[0] == "rejected":
+                    evs.pop(0)
+            elif ck in ("A", "FA"):
+                stats["nested_adds"] += 1
+                do_add(cw, evs, idx, ck == "FA")
+            elif ck == "FN":
+                do_add(cw, evs, idx, "new")
+            elif ck == "FQ":
+                if int(cw[1]) in inflight:
+                    do_enq(int(cw[1]), evs, idx)
+                elif evs and evs[0] == "rejected":
+                    evs.pop(0)
+            elif ck == "Q":
+                do_queue(cw)
+            elif ck == "C":
+                cancel(int(cw[1]), fidx, due)
+            elif ck == "FC":
+                queue.append(("cancel", tags.get(int(cw[1]))))
 
     for idx, op in enumerate(ops):
         if idx >= len(body) or body[idx] in ("end",) or body[idx].startswith("destroy"):
@@ -134,18 +206,32 @@ def oracle(case, lines):
             clk += int(w[1])
         elif k in ("A", "FA"):
             do_add(w, evs, idx, k == "FA")
+        elif k == "FN":
+            do_add(w, evs, idx, "new")
+        elif k == "FQ":
+            do_enq(int(w[1]), evs, idx)
+        elif k == "Q":
+            do_queue(w)
         elif k == "C":
             cancel(int(w[1]), None, ())
         elif k == "FC":
-            queue.append(("cancel", int(w[1])))
+            queue.append(("cancel", tags.get(int(w[1]))))
         elif k == "P":
-            for (what, tag) in queue:
+            batch, queue = queue, []          # doPendingFunctors swaps the queue; what is queued meanwhile waits
+            for (what, x) in batch:
                 if what == "add":
-                    if tags[tag].state == "queued":
-                        tags[tag].state = "pending"
+                    if x.state == "queued":
+                        x.state = "pending"
+                elif what == "cancel":
+                    cancel(None, None, (), t=x)
                 else:
-                    cancel(tag, None, ())
-            queue = []
+                    for (cw, tm) in x:
+                        if cw[0] == "C":
+                            cancel(None, None, (), t=tm)
+                        elif cw[0] == "FC":
+                            queue.append(("cancel", tm))
+                        else:
+                            run_cbops([cw], evs, idx, None, ())
         elif k == "F":
             groups = parse_script(w[1:])
             now = clk
@@ -187,20 +273,7 @@ def oracle(case, lines):
                 # the callback's script
                 g = groups[gi] if gi < len(groups) else []
                 gi += 1
-                for cw in g:
-                    ck = cw[0]
-                    if ck == "T":
-                        if int(cw[1]) >= 0:
-                            clk += int(cw[1])
-                        elif evs and evs[0] == "rejected":
-                            evs.pop(0)
-                    elif ck in ("A", "FA"):
-                        stats["nested_adds"] += 1
-                        do_add(cw, evs, idx, ck == "FA")
-                    elif ck == "C":
-                        cancel(int(cw[1]), idx, due)
-                    elif ck == "FC":
-                        queue.append(("cancel", int(cw[1])))
+                run_cbops(g, evs, idx, idx, due)
             stats["batch_max"] = max(stats["batch_max"], len(ran))
             for t in due:
                 if t not in ran and not (t.state == "cancelled"):
@@ -272,12 +345,47 @@ def gen_case(rng, cid, maxops, focus):
         if rng.random() < 0.01:
             when = rng.choice([0, -7])   # rejected precondition: deadline not after the epoch
         tags.append([ntag[0], when, iv, True])
+        if foreign == "new":
+            inflight.append(ntag[0])
+            note("foreign-new")
+            return ["FN", str(ntag[0]), str(when), str(iv)]
         if foreign:
-            queued.add(ntag[0])
+            (queued_next if foreign == "inbody" else queued).add(ntag[0])
         note("nested-add" if nested else ("foreign-add" if foreign else "add"))
         return ["FA" if foreign else "A", str(ntag[0]), str(when), str(iv)]
 
-    queued = set()    # tags whose foreign add is still in pendingFunctors_
+    queued = set()        # tags whose foreign add is in pendingFunctors_ now
+    queued_next = set()   # tags whose foreign add will be queued by a user functor when the next P runs it
+    inflight = []         # tags of foreign adds between their two micro-steps (FN done, FQ not yet)
+
+    def enq_op():
+        """FQ of an in-flight add (or a new FN when there is none)"""
+        if inflight and rng.random() < 0.85:
+            tag = inflight.pop(rng.randrange(len(inflight)))
+            queued.add(tag)
+            note("foreign-enq")
+            return ["FQ", str(tag)]
+        if rng.random() < 0.1:
+            return ["FQ", str(900 + rng.randrange(3))]     # nothing in flight under that tag: rejected
+        return None
+
+    def qbody(cur):
+        """Q { ... }: a user functor; its ops run when the next doPendingFunctors reaches it"""
+        body = []
+        for _ in range(rng.choice([1, 1, 2, 3])):
+            r = rng.random()
+            if r < 0.3:
+                body.append(new_add(cur, True))
+            elif r < 0.5:
+                body.append(["C", pick_cancel()])          # runs behind every add queued before it (FIFO)
+            elif r < 0.65:
+                body.append(new_add(cur, True, foreign="inbody"))
+            elif r < 0.8:
+                body.append(["FC", pick_cancel()])
+            else:
+                body.append(["T", str(rng.choice([0, 1, 50, 3000]))])
+        note("user-functor")
+        return ["Q", "{"] + " | ".join(" ".join(o) for o in body).split() + ["}"]
 
     def cancel_op(tag):
         # a loop-thread cancel that overtakes the still queued add is the recorded finding
@@ -314,9 +422,18 @@ def gen_case(rng, cid, maxops, focus):
                 elif r < 0.8:
                     g.append(["T", str(rng.choice([0, 1, 10, 150, 5000]))])
                 elif r < 0.9:
-                    g.append(new_add(cur, True, foreign=True))
-                else:
+                    r3 = rng.random()
+                    e = enq_op() if (inflight and r3 >= 0.45) else None
+                    if e:
+                        g.append(e)
+                    elif r3 < 0.6:
+                        g.append(new_add(cur, True, foreign=True))
+                    else:
+                        g.append(new_add(cur, True, foreign="new"))
+                elif r < 0.97:
                     g.append(["FC", pick_cancel()])
+                else:
+                    g.append(qbody(cur))
             groups.append(g)
         return fmt_script(groups)
 
@@ -358,15 +475,28 @@ def gen_case(rng, cid, maxops, focus):
                     else:
                         t[3] = False
             note("fire")
-        elif r < 0.90:
+        elif r < 0.88:
             ops.append(" ".join(new_add(clk, False, foreign=True)))
-        elif r < 0.94:
+        elif r < 0.90:
+            ops.append(" ".join(new_add(clk, False, foreign="new")))
+        elif r < 0.92:
+            e = enq_op()
+            ops.append(" ".join(e if e else new_add(clk, False, foreign="new")))
+        elif r < 0.935:
+            ops.append(" ".join(qbody(clk)))
+        elif r < 0.955:
             ops.append("FC " + pick_cancel())
             note("foreign-cancel")
         else:
             ops.append("P")
             queued.clear()
+            queued.update(queued_next)      # what the user functors of this batch queued waits for the next one
+            queued_next.clear()
             note("run-pending")
+        if inflight and rng.random() < 0.3:
+            e = enq_op()
+            if e:
+                ops.append(" ".join(e))
         if churn and rng.random() < 0.3:
             # allocate and free so that the allocator hands old addresses out again, then cancel old ids
             for _ in range(rng.randint(1, 6)):
@@ -379,8 +509,12 @@ def gen_case(rng, cid, maxops, focus):
             if rng.random() < 0.6:
                 ops.append(" ".join(cancel_op(pick_cancel())))
             note("churn")
+    if inflight and rng.random() < 0.7:
+        ops.append("FQ %d" % inflight.pop())
     if rng.random() < 0.5:
         ops.append("P")
+        if queued_next and rng.random() < 0.7:
+            ops.append("P")
     if rng.random() < 0.6:
         ops.append("T %d" % rng.choice([400000, 100, 0]))
         ops.append(script(clk + 400000))
@@ -421,6 +555,18 @@ def boundary_cases():
     mk("stale_arm_progress", ["A 1 %d 0" % (c + 500), "A 2 %d 0" % (c + 8000), "C 1", "T 600", "F [ ]", "F [ ]", "T 7400", "F [ ]", "F [ ]"])
     mk("order_across_batches", ["A 2 %d 0" % (c + 700), "A 1 %d 0" % (c + 500), "T 600", "F [ ]", "T 200", "F [ ]"])
     mk("cancel_readd_in_batch", ["A 1 %d 0" % (c + 10), "A 2 %d 500" % (c + 900), "T 10", "F [ C 2 , A 3 %d 500 , C 3 , A 4 %d 0 ]" % (c + 900, c + 900), "T 1000", "F [ ]"])
+    # foreign add as micro-steps (FN ; FQ), user functors (Q), queue order
+    mk("fn_fq_basic", ["FN 1 %d 0" % (c + 100), "A 2 %d 0" % (c + 50), "FQ 1", "P", "T 100", "F [ ]"])
+    mk("fn_other_add_between", ["FN 1 %d 500" % (c + 100), "FA 2 %d 0" % (c + 60), "A 3 %d 0" % (c + 70), "FQ 1", "FC 1", "P", "T 700", "F [ ]", "F [ ]"])
+    mk("fn_order_swapped", ["FN 1 %d 0" % (c + 100), "FN 2 %d 0" % (c + 90), "FQ 2", "P", "FQ 1", "FC 1", "P", "T 100", "F [ ]"])
+    mk("fn_cancel_before_return", ["FN 1 %d 0" % (c + 100), "C 1", "FC 1", "FQ 1", "P", "T 100", "F [ ]"])
+    mk("fn_in_callback", ["A 1 %d 0" % (c + 10), "T 10", "F [ FN 2 %d 0 , T 5 , FQ 2 ]" % (c + 40), "P", "T 40", "F [ ]"])
+    mk("fq_unknown", ["FQ 7", "FN 1 %d 0" % (c + 10), "FQ 1", "FQ 1", "P", "T 10", "F [ ]"])
+    mk("fn_never_enqueued", ["FN 1 %d 0" % (c + 10), "T 20", "F [ ]", "P"])
+    mk("q_basic", ["A 1 %d 1000" % (c + 1000), "Q { C 1 | A 2 %d 0 }" % (c + 500), "FA 3 %d 0" % (c + 400), "P", "T 1000", "F [ ]"])
+    mk("q_between_functors", ["FA 1 %d 0" % (c + 300), "Q { FA 2 %d 0 | FC 1 | T 7 }" % (c + 200), "FA 3 %d 0" % (c + 100), "P", "P", "T 300", "F [ ]"])
+    mk("q_add_then_cancel_fifo", ["FA 1 %d 500" % (c + 300), "Q { C 1 }", "P", "T 900", "F [ ]"])
+    mk("q_from_callback", ["A 1 %d 0" % (c + 10), "T 10", "F [ Q { A 2 %d 0 | C 1 } ]" % (c + 5), "P", "F [ ]"])
     mk("deadline_eq_sentinel", ["A 1 %d 0" % (c + 100), "A 2 %d 0" % (c + 101), "T 100", "F [ ]", "T 1", "F [ ]"])
     return out
 
@@ -513,6 +659,165 @@ def run_both(impl, model, cases):
     for c in cases:
         res[c.cid] = (impl_out.get(c.cid), model_out.get(c.cid), crashes.get(c.cid), meta[c.cid][0], meta[c.cid][1])
     return res
+
+
+# ------------------------------------------------------------------ free-running comparison against the wall clock
+FREE_DURATION = 400000      # us a free-running program lasts
+FREE_LAST_DL = 150000       # latest first deadline
+FREE_MARGIN = 200000        # a timer whose deadline lies this far before the end must have run (lateness is the platform's)
+
+
+def gen_free(rng, cid):
+    ops, n = [], 0
+    tags = []            # (tag, iv)
+
+    def fresh(iv):
+        nonlocal n
+        n += 1
+        tags.append((n, iv))
+        return n
+
+    def delay():
+        r = rng.random()
+        if r < 0.15:
+            return rng.choice([-5000, -1, 0, 1, 50, 99, 100, 101])
+        if r < 0.35:
+            return rng.choice([20000, 40000, 60000])          # equal requested delays: near-equal deadlines
+        return rng.randrange(0, FREE_LAST_DL)
+
+    def iv():
+        return rng.choice([0, 0, 0, 0, 5000, 10000, 20000, 50000])
+    for _ in range(rng.randint(4, 18)):
+        i = iv()
+        ops.append("A %d %d %d" % (fresh(i), delay() if i == 0 else i, i))
+    for _ in range(rng.randint(0, 8)):
+        i = iv()
+        ops.append("FA %d %d %d %d" % (fresh(i), min(delay(), 80000) if i == 0 else i, i, rng.randrange(0, 120000)))
+    first = [t for (t, _) in tags]
+    for _ in range(rng.randint(0, 6)):
+        i = iv()
+        cb = rng.choice(first)
+        ops.append("N %d %d %d %d" % (cb, fresh(i), rng.choice([-1000, 0, 100, 5000, 30000]) if i == 0 else i, i))
+    for _ in range(rng.randint(0, 5)):
+        cb = rng.choice(first)
+        ops.append("X %d %d" % (cb, rng.choice([cb, cb, rng.choice(first)])))
+    for _ in range(rng.randint(0, 6)):
+        ops.append("FC %d %d" % (rng.choice(first), rng.randrange(0, 200000)))
+    return vlib.Case(cid, "free %d" % FREE_DURATION, ops, "free")
+
+
+def free_oracle(case, lines):
+    """the property text on the wall-clock trace of harness/C06_free.cc -> ([(clause, message)], stats)"""
+    bad = []
+    adds, runs, pos = {}, {}, 0
+    cancelled = {}       # tag -> (position in the trace, time, kind) of the first processed cancel
+    called = set()       # tags for which a cancel call was made at all
+    t_quit = None
+    for l in lines[1:]:
+        w = l.split()
+        if not w or w[0] == "end":
+            continue
+        pos += 1
+        if w[0] == "add":
+            adds[int(w[1])] = dict(seq=int(w[2]), tb=int(w[3]), ta=int(w[4]), lo=int(w[5]), hi=int(w[6]), iv=int(w[7]), who=w[8])
+        elif w[0] == "run":
+            runs.setdefault(int(w[1]), []).append((int(w[3]), int(w[4]), pos))
+        elif w[0] == "cancel":
+            called.add(int(w[1]))
+            if w[3] == "L":
+                cancelled.setdefault(int(w[1]), (pos, int(w[2]), "L"))
+        elif w[0] == "processed":
+            cancelled.setdefault(int(w[1]), (pos, int(w[2]), "F"))
+        elif w[0] == "quit":
+            t_quit = int(w[1])
+    stats = {"timers": len(adds), "runs": sum(len(v) for v in runs.values()), "max_late_us": 0, "cancels_processed": len(cancelled)}
+    if t_quit is None:
+        return [("crash", "no quit record: the free-running program did not finish")], stats
+    for tag, rs in runs.items():
+        a = adds.get(tag)
+        if a is None:
+            bad.append(("format", "run of tag %d without an add record" % tag))
+            continue
+        for k, (t, dl, p) in enumerate(rs):
+            if t < a["lo"] + k * a["iv"]:
+                bad.append(("early" if a["iv"] == 0 or k == 0 else "spacing",
+                            "run #%d of tag %d at %d us, earlier than its first deadline %d + %d intervals of %d" % (k + 1, tag, t, a["lo"], k, a["iv"])))
+            if dl >= 0 and t < dl:
+                bad.append(("early", "tag %d ran at %d us, before the deadline %d it was filed under" % (tag, t, dl)))
+            if dl >= 0:
+                stats["max_late_us"] = max(stats["max_late_us"], t - dl)
+            if k > 0 and dl >= 0 and rs[k - 1][1] >= 0 and dl < rs[k - 1][1] + a["iv"]:
+                bad.append(("spacing", "repeater tag %d: run #%d filed under %d, less than one interval (%d) after the previous %d" % (tag, k + 1, dl, a["iv"], rs[k - 1][1])))
+        if a["iv"] == 0 and len(rs) > 1:
+            bad.append(("once", "one-shot tag %d ran %d times" % (tag, len(rs))))
+        if a["iv"] > 0 and len(rs) > (t_quit - a["lo"]) // a["iv"] + 1:
+            bad.append(("spacing", "repeater tag %d ran %d times in %d us with interval %d" % (tag, len(rs), t_quit - a["lo"], a["iv"])))
+        c = cancelled.get(tag)
+        if c is not None:
+            later = [(t, dl, p) for (t, dl, p) in rs if p > c[0]]
+            allowed = 1 if c[2] == "L" else 0          # a same-batch cancel lets the invocation that was already due run
+            late_ok = [x for x in later if x[1] >= 0 and x[1] <= c[1]]
+            if len(later) > allowed or (later and not late_ok and c[2] == "L"):
+                bad.append(("cancel", "tag %d ran %d time(s) after its cancel had been processed at %d us" % (tag, len(later), c[1])))
+    all_runs = [(t, dl, p, tg) for tg, rs in runs.items() for (t, dl, p) in rs]
+    for tag, a in adds.items():
+        if tag in called or runs.get(tag):
+            continue
+        # (a) independent of the machine's load: a callback filed under a LATER deadline ran after this timer was registered
+        later = [x for x in all_runs if x[1] > a["hi"] and x[0] > a["ta"]] if a["who"] == "L" else []
+        if later:
+            bad.append(("lost", "tag %d (deadline <= %d us, registered at %d, never cancelled) never ran although tag %d filed under the later "
+                                "deadline %d ran at %d" % (tag, a["hi"], a["ta"], later[0][3], later[0][1], later[0][0])))
+        # (b) by the clock, unless the machine was so loaded that lateness of that order was observed in this very program
+        elif a["hi"] + FREE_MARGIN <= t_quit and stats["max_late_us"] < FREE_MARGIN // 4:
+            bad.append(("lost", "tag %d (deadline <= %d us, never cancelled) did not run in %d us" % (tag, a["hi"], t_quit)))
+    # deadline order among one-shots added on the loop thread before the earlier deadline
+    one = [(tag, a) for tag, a in adds.items() if a["iv"] == 0 and len(runs.get(tag, [])) == 1]
+    for ta_, a in one:
+        if a["who"] != "L" or a["ta"] >= a["lo"]:
+            continue
+        for tb_, b in one:
+            if a["hi"] < b["lo"] and runs[tb_][0][2] < runs[ta_][0][2]:
+                bad.append(("order", "one-shot tag %d (deadline >= %d) ran before tag %d (deadline <= %d, registered at %d)" % (tb_, b["lo"], ta_, a["hi"], a["ta"])))
+    return bad, stats
+
+
+def free_part(chk, nprog, variants=("plain",)):
+    """free-running programs on the real loop / timerfd / clock"""
+    rng = chk.rng
+    cases = [gen_free(rng, "w%d" % i) for i in range(nprog)]
+    agg = {"programs": 0, "timers": 0, "runs": 0, "max_late_us": 0, "cancels_processed": 0}
+    bad_all = []
+    for v in variants:
+        exe = vlib.build_driver("C06_free_" + v, ["C06_free.cc"], variant=v, components=("base", "net"))
+        out, crashes = vlib.run_batch_parallel(exe, cases, jobs=max(1, min(vlib.NPROC, len(cases) // 4)), timeout=1200)
+        for c in cases:
+            chk.cov["evaluations"] += 1
+            li = out.get(c.cid)
+            if li is None:
+                cr = crashes.get(c.cid)
+                bad_all.append((c, v, "crash", "free-running program crashed / no output (%s build): %s" % (v, (cr[1][-800:] if cr else ""))))
+                continue
+            bad, st = free_oracle(c, li)
+            agg["programs"] += 1
+            for k in ("timers", "runs", "cancels_processed"):
+                agg[k] += st[k]
+            agg["max_late_us"] = max(agg["max_late_us"], st["max_late_us"])
+            for (clause, msg) in bad:
+                bad_all.append((c, v, clause, msg))
+    chk.cov["free_running"] = agg
+    chk.add_obligation("free-running comparison against the wall clock (real loop(), timerfd, poller; %d programs x %s): never early, one-shots "
+                       "once, repeater spacing and count, deadline order, processed cancels stop the timer, none lost"
+                       % (nprog, "+".join(variants)), not bad_all)
+    seen = set()
+    for (c, v, clause, msg) in bad_all:
+        if clause in seen:
+            continue
+        seen.add(clause)
+        n = sum(1 for x in bad_all if x[2] == clause)
+        p = chk.write_replay("free_%s_%s.case" % (clause, c.cid), "# free-running, build=%s clause=%s\n# %s\n" % (v, clause, msg) + c.text())
+        chk.violation(p, "%s fails on the free-running implementation [%s]: %s (%d failing checks; timing dependent: replay with "
+                         "harness/C06_free.cc)" % (chk.prop, clause, msg[:500], n))
 
 
 def known_key(prop, clause):
@@ -635,6 +940,8 @@ def run_common(chk, prop, clauses, focus_mix, replay=None, extra=None):
         ops = vlib.ddmin(c.ops, fails, max_tests=120)
         return vlib.Case(c.cid, c.header, ops)
 
+    if extra:
+        extra(chk, pr)      # the race suite runs BEFORE a fallback is settled as no-failing-input-found
     if oracle_bad:
         # one violation per clause (a different clause is a different violation)
         seen = set()
@@ -671,14 +978,35 @@ def run_common(chk, prop, clauses, focus_mix, replay=None, extra=None):
             body = small.text()
         p = chk.write_replay("broken_obligation.txt", "\n".join("# " + w for w in what) + "\n" + body +
                              ("\n--- coq log tail ---\n" + pr["log"][-3000:] if not pr["ok"] else ""))
-        chk.violation(p, "; ".join(what), no_input=True)
-    if extra:
-        extra(chk, pr)
+        only_fallback = bool(gen_problems) and not corr_bad and pr["ok"] and model is not None
+        have_input = any(not ni for (_, _, ni) in chk.violations)
+        if only_fallback and have_input:
+            # the fact could not be read off the sources AND the suites found a failing input: that input is the verdict
+            chk.notes.append("generated fact fell back (%s); reported through the failing input found by the race suite" % gen_problems)
+        else:
+            chk.violation(p, "; ".join(what), no_input=True)
     return pr
 
 
+def free_extra(chk, pr):
+    if chk.tier == "thorough":
+        free_part(chk, 640, variants=("plain", "asan"))
+    else:
+        free_part(chk, 16)
+
+
 def run(chk, replay=None):
-    run_common(chk, "C06", C06_CLAUSES, ["mixed", "mixed", "reuse"], replay=replay)
+    if replay and any(l.startswith("case ") and l.split()[2:3] == ["free"] for l in open(replay).read().split("\n")):
+        chk.prove()
+        cases = load_case_file(replay)
+        exe = vlib.build_driver("C06_free_plain", ["C06_free.cc"], variant="plain", components=("base", "net"))
+        out, crashes = vlib.run_batch_parallel(exe, cases, timeout=600)
+        for c in cases:
+            bad, st = free_oracle(c, out.get(c.cid) or ["", "quit -1"]) if out.get(c.cid) else ([("crash", "no output")], {})
+            for (clause, msg) in bad[:1]:
+                chk.violation(replay, "C06 fails on the free-running implementation [%s]: %s" % (clause, msg))
+        return chk.finish(level="proof", assumptions=["free-running replay (timing dependent)"])
+    run_common(chk, "C06", C06_CLAUSES, ["mixed", "mixed", "reuse"], replay=replay, extra=None if replay else free_extra)
     return chk.finish(level="proof", assumptions=[
         "timerfd contract (DESIGN 3.4): readable no earlier than the armed relative time, stays readable until read or re-armed; it_value 0 disarms",
         "clock: gettimeofday does not go backwards between two reads by the loop thread (negative ticks are rejected)",
